@@ -103,6 +103,20 @@ func (ex *Exec) parentOf(path *Term) (*fsEnt, *Term) {
 	fs := ex.fsys()
 	for _, d := range fs.dirs {
 		pre := mkConcat(d.path, mkStr("/"))
+		if pre.Op == "cs" {
+			if first := catAtoms(path)[0]; first.Op == "cs" && len(first.S) >= len(pre.S) {
+				// both sides start with constants: decide the prefix relation on them
+				if !strings.HasPrefix(first.S, pre.S) {
+					continue
+				}
+				rest := append([]*Term{mkStr(first.S[len(pre.S):])}, catAtoms(path)[1:]...)
+				name := mkConcat(rest...)
+				if ex.decideBool(slashFree(name)) {
+					return d, name
+				}
+				continue
+			}
+		}
 		da, pa := catAtoms(pre), catAtoms(path)
 		if len(pa) > len(da) {
 			ok := true
@@ -153,14 +167,14 @@ func fsErr(site, kind string) Iface {
 
 func (ex *Exec) crashPoint() {
 	fs := ex.fsys()
-	if fs.armed && ex.chooseFree(2) == 1 {
+	if fs.armed && !ex.concreteMode() && ex.chooseFree(2) == 1 {
 		panic(crashEvent{})
 	}
 }
 
 func (ex *Exec) fault(name string) bool {
 	fs := ex.fsys()
-	return fs.faults && ex.chooseFree(2) == 1
+	return fs.faults && !ex.concreteMode() && ex.chooseFree(2) == 1
 }
 
 func pathTerm(v Value) *Term { return strTerm(v) }
@@ -306,11 +320,17 @@ func init() {
 		if !ok {
 			panic(pathAbort{"unsupported: writing bytes that are not a protobuf encoding"})
 		}
-		if fs.armed && ex.chooseFree(2) == 1 {
+		if fs.armed && !ex.concreteMode() && ex.chooseFree(2) == 1 {
 			// the process dies inside the write: only the first k bytes reach the file
-			k := ex.freshVar("torn", SInt, "int", true)
-			ex.assume(mkIntCmp("<=", mkInt(0), k))
-			ex.assume(mkIntCmp("<", k, b.n))
+			var k *Term
+			if ex.concreteMode() {
+				k = mkInt(0)
+				ex.nondets = append(ex.nondets, nondetRec{Name: "torn", Kind: "int", T: k})
+			} else {
+				k = ex.freshVar("torn", SInt, "int", true)
+				ex.assume(mkIntCmp("<=", mkInt(0), k))
+				ex.assume(mkIntCmp("<", k, b.n))
+			}
 			if old, _ := f.content.(*blobVal); keepOld && old != nil && old.n != nil && old.n != mkInt(0) && old.torn == nil {
 				// written over existing bytes without truncation: the first k new bytes followed by the old tail
 				f.content = &blobVal{hybrid: true, doc: b.doc, typ: b.typ, n: old.n}
@@ -380,8 +400,13 @@ func init() {
 		}
 		fs.ntmp++
 		// the name is the pattern with its last "*" replaced by a random decimal string (appended when there is none)
-		rnd := ex.freshVar("tmpname", SStr, "string", false)
-		ex.assume(mkStrOp("str.in_re", SBool, rnd, mkRaw("(re.+ (re.range \"0\" \"9\"))")))
+		var rnd *Term
+		if ex.concreteMode() {
+			rnd = mkStr(fmt.Sprintf("%d", 1000+fs.ntmp))
+		} else {
+			rnd = ex.freshVar("tmpname", SStr, "string", false)
+			ex.assume(mkStrOp("str.in_re", SBool, rnd, mkRaw("(re.+ (re.range \"0\" \"9\"))")))
+		}
 		pat := catAtoms(strTerm(args[1]))
 		var name []*Term
 		placed := false
